@@ -177,11 +177,14 @@ theorem C04App_wire_prefix (a : ACfg) (evs : List Ev)
 /-! ### single steps -/
 
 /-- **The second dispatcher delivers the head of the second queue**: a step of `D2` on a non-stopped application queue with
-    `v` at its head enters the application message callback for `v`. -/
+    `v` at its head enters the application message callback for `v` — and for no other value; the rest of the queue stays as it
+    is (stated for callbacks that do not close the session at once: such a callback carries out the close of the soup session
+    within this very step, see `Model/AppSession.lean` `closeOnD2`; that nothing is lost or reordered then is `C04App_flow`). -/
 theorem C04App_dispatch_delivers_head (a : ACfg) (s : St) (v : Nat) (q : List Nat)
     (hD : s.astatus .D2 = .ready) (hp : s.aprog .D2 = .dispLoop) (hq : s.q2Closed = false) (hb : s.rcv2Busy = false)
     (hv : s.vres2 = none) (hqu : s.q2 = v :: q) (hi : InvF a s) :
-    appDelivered (step a s (.run .D2)).trace2 = appDelivered s.trace2 ++ [v] ∧ (step a s (.run .D2)).q2 = q := by
+    appDelivered (step a s (.run .D2)).trace2 = appDelivered s.trace2 ++ [v] ∧
+    (a.msgBeh v ≠ .close → (step a s (.run .D2)).q2 = q) := by
   have e : step a s (.run .D2) = dispHandle2 a
       (({ s with imm2 := false, q2 := q, gone2 := s.gone2 ++ [(v, true)] } : St).emit2 (.msgEnter v)) v := by
     simp [step, runnable2, hD, stepRun2, hp, stepDisp2, hq, hb, hv, hqu]
@@ -189,7 +192,7 @@ theorem C04App_dispatch_delivers_head (a : ACfg) (s : St) (v : Nat) (q : List Na
     InvF.deliver_head (s := { s with imm2 := false }) (InvF.of_fcore (s := s) (s' := { s with imm2 := false }) rfl hi) hqu hv rfl
   have i2 := dispHandle2_InvF i1 v
   rw [← e] at i2
-  have hg : (step a s (.run .D2)).gone2 = s.gone2 ++ [(v, true)] ∧ (step a s (.run .D2)).q2 = q := by
+  have hg : (step a s (.run .D2)).gone2 = s.gone2 ++ [(v, true)] ∧ (a.msgBeh v ≠ .close → (step a s (.run .D2)).q2 = q) := by
     rw [e]
     obtain ⟨h1, h2⟩ := dispHandle2_q2_gone2 a
       (({ s with imm2 := false, q2 := q, gone2 := s.gone2 ++ [(v, true)] } : St).emit2 (.msgEnter v)) v
